@@ -39,6 +39,33 @@ theorem frame (cfg : Cfg) (hg : cfg.Good) (hall : cfg.AllCopy) {H : Heap} {R : N
   rw [hex]
   simp [List.getElem?_append_left ho]
 
+/-- **`find_class(copy=True)` hands out a private copy**: it terminates, the heap only grows, the
+    copy unfolds like the class that was looked up, and everything reachable from the copy through
+    `own` references (what flattening writes to) is new. -/
+theorem lookup_copy_is_private (cfg : Cfg) (hg : cfg.Good) {H : Heap} {R : Nat → Prop}
+    (hR : Region H R) (hts : TreeShaped H R) {c : Nat} (hc : R c) (hd : Detached H c) :
+    ∃ H' y, deepcopy cfg H c = some (H', y) ∧ (∀ o, o < H.length → H'[o]? = H[o]?) ∧
+      (∀ k, view H' k y = view H k c) ∧ ∀ i, OwnReach H' y i → H.length ≤ i := by
+  obtain ⟨⟨H', ys⟩, htot⟩ := lookupAll_copy_total hg [c] H hR (fun i hi => by
+    rw [List.mem_singleton.mp hi]; exact hc)
+  have lo := lookupAll_copy_spec hg [c] H H' ys hR hts (fun i hi => by
+    rw [List.mem_singleton.mp hi]; exact ⟨hc, hd⟩) htot
+  simp only [lookupAll, if_true] at htot
+  cases hdc : deepcopy cfg H c with
+  | none => simp [hdc] at htot
+  | some r =>
+    obtain ⟨H1, y⟩ := r
+    simp only [hdc, Option.some.injEq, Prod.mk.injEq] at htot
+    obtain ⟨e1, e2⟩ := htot
+    subst e1; subst e2
+    obtain ⟨ex, hex⟩ := lo.frame
+    refine ⟨H1, y, rfl, ?_, ?_, ?_⟩
+    · intro o ho; rw [hex, List.getElem?_append_left ho]
+    · intro k
+      have := lo.views k
+      simpa using this
+    · exact lo.fresh y List.mem_cons_self
+
 /-- **History independence** (induction over the history).  Any sequence of requests on one tree —
     repeating a class, different classes, a class used by an earlier one — answers every request
     with what the same request reads on the initial tree, whatever the earlier requests wrote. -/
@@ -130,6 +157,11 @@ example : ∃ H', flattenImpl current scribble demo 0 reqA = some H' ∧
   | some H' =>
     exact ⟨H', rfl, frame current flags_ok.1 flags_ok.2 demo_region demo_tree (by decide)
       (demo_ok reqA (by decide)) scribble h1⟩
+
+example : ∃ H' y, deepcopy current demo 1 = some (H', y) ∧ ∀ i, OwnReach H' y i → demo.length ≤ i := by
+  obtain ⟨H', y, h, _, _, hf⟩ := lookup_copy_is_private current flags_ok.1 demo_region demo_tree (c := 1)
+    (by decide) (detached_of_rank (d := demoRank) (by decide +kernel) 1)
+  exact ⟨H', y, h, hf⟩
 
 example : runSeq current 3 0 demo [(reqA, scribble), (reqB, scribble), (reqA, scribble)] =
     [flattenResult current 3 demo 0 reqA, flattenResult current 3 demo 0 reqB, flattenResult current 3 demo 0 reqA] :=
